@@ -16,6 +16,15 @@ func Shrink(p Prop, v *Violation, budget time.Duration) *Violation {
 	tries := 0
 	test := func(w *World) *Violation {
 		tries++
+		// candidates must stay inside the domain the generator guarantees
+		if w.Prog != nil && !InDomain(&w.Cfg, w.Prog) {
+			return nil
+		}
+		for _, pr := range w.Progs {
+			if !InDomain(&w.Cfg, pr) {
+				return nil
+			}
+		}
 		for i := 0; i < 2; i++ {
 			st := NewStats()
 			var nv *Violation
